@@ -43,7 +43,7 @@ ALPHABET = [
     ["load {i} Ff Ef Df Cg"],          # forward + export + definition of f, imports g
     ["load {i} Ed Xd"],                # exports d as the head of a three-item section (data+bss+data)
     ["load {i} Cf Df"],                # malformed: import and definition of the same name
-    ["ext f 1"], ["ext d 2"], ["redef 1"],
+    ["ext f 1"], ["ext f N"], ["ext d 2"], ["redef 1"],   # N: external with address NULL
     ["link interp -", "call"], ["link interp -"], ["link gen 0", "call"],
     ["link null fd"], ["link lazy fg", "call"], ["call"],
 ]
@@ -61,14 +61,40 @@ def exhaustive(length, alphabet=ALPHABET):
         yield instantiate(seq)
 
 
+def decl_order(rng, n, defkind, exported):
+    """one definition of n with export/forward declarations in a random order around it, possibly repeated
+    (also after the definition)"""
+    ds = [defkind + n]
+    extra = (["E" + n] if exported else []) + ["F" + n] * rng.below(3) + (["E" + n] if exported and rng.chance(1, 3) else [])
+    if not exported and not extra: extra = ["F" + n]
+    for d in extra:
+        ds.insert(rng.below(len(ds) + 1), d)
+    return ds
+
+
+def decl_order_sweep():
+    """every sequence of up to 4 declarations over {export, forward, definition} of one name (function f and
+    data d, at most one definition), loaded after an older exported version and before an importer"""
+    out = []
+    for name, dk, imp in (("f", "D", "C"), ("f", "D", "P"), ("d", "V", "R"), ("d", "X", "R")):
+        for L in range(1, 5):
+            for seq in itertools.product("EF" + "K", repeat=L):
+                if seq.count("K") > 1: continue
+                decls = " ".join((dk if c == "K" else c) + name for c in seq)
+                old = "load 2 E%s %s%s" % (name, dk if dk != "X" else "V", name)
+                out.append(["redef 1", old, "load 3 " + decls, "load 4 %s%s" % (imp, name), "link interp -", "call"])
+                out.append(["load 3 " + decls, "load 4 %s%s" % (imp, name), "link gen -", "call"])
+    return out
+
+
 def rand_module(rng, ident):
     decls = []
     for n in FUNC_NAMES:
         r = rng.below(100)
         if r < 30: continue
-        elif r < 50: decls += [["E" + n, "D" + n], ["D" + n, "E" + n], ["F" + n, "E" + n, "D" + n], ["E" + n, "F" + n, "D" + n]][rng.below(4)]
+        elif r < 50: decls += decl_order(rng, n, "D", True)
         elif r < 55: decls += ["D" + n]
-        elif r < 60: decls += ["F" + n, "D" + n]
+        elif r < 60: decls += decl_order(rng, n, "D", False)
         elif r < 63: decls += ["E" + n]
         elif r < 65: decls += ["F" + n]
         elif r < 80: decls += ["C" + n]
@@ -80,7 +106,7 @@ def rand_module(rng, ident):
         if r < 40: continue
         elif r < 65:
             k = DATA_KINDS[rng.below(len(DATA_KINDS))]
-            decls += [["E" + n, k + n], [k + n, "E" + n]][rng.below(2)]
+            decls += decl_order(rng, n, k, True)
         elif r < 70: decls += [DATA_KINDS[rng.below(len(DATA_KINDS))] + n]
         elif r < 95: decls += ["R" + n]
         elif r < 99: decls += ["E" + n]
@@ -112,7 +138,7 @@ def rand_history(rng, maxlen=50):
         if r < 45: out.append(rand_module(rng, len(out) + 1))
         elif r < 55:
             nm = rng.choice(FUNC_NAMES + DATA_NAMES)
-            out.append("ext %s %d" % (nm, rng.below(4)))
+            out.append("ext %s %s" % (nm, "N" if rng.chance(1, 6) else str(rng.below(4))))
         elif r < 60: out.append("redef %d" % (0 if rng.chance(1, 6) else 1))
         elif r < 82:
             iface = ["interp"] * 35 + ["gen"] * 25 + ["lazy"] * 15 + ["null"] * 25
@@ -212,7 +238,7 @@ def classify(hist, j, impl, model, spec, tie_ok):
                 pending = []
     if il.startswith("crash") or il == "err MIR_call_op_error":
         # an interpreted module reached a thunk that is not linked yet
-        if any(i == "interp" and any(d[0] == "P" for d in loads[m]) for m, i in iface_of.items()):
+        if any(i == "interp" and any(d[0] in "PR" for d in loads[m]) for m, i in iface_of.items()):
             return "C13:interp-late-rebinding"
         return "C13:binding-not-last-def"
     iv, sv = parse_vals(il), parse_vals(sl)
@@ -421,6 +447,10 @@ if plain is not None and san is not None and os.path.exists(DRV):
     ck.cov["corpus_replayed"] = len(corpus)
     thorough = ck.tier == "thorough"
     L = 5 if thorough else 4
+    sweep = decl_order_sweep()
+    process(sweep, plain, "ord")
+    process(sweep, san, "ordsan")
+    ck.stage("decl-order sweep", histories=len(sweep))
     ex = list(exhaustive(L))
     process(ex, plain, "ex")
     ck.stage("exhaustive", length=L, alphabet=len(ALPHABET), histories=len(ex), t_s=round(time.time() - t, 1))
